@@ -477,7 +477,12 @@ func lenRef(kind string, n int) []byte {
 	return refBE(uint64(n), 8)
 }
 
+var overflowOK bool // generators may exceed the prefix type's range (out-of-domain writes, model-vs-impl only)
+
 func lenMax(kind string) int {
+	if overflowOK {
+		return 1 << 20
+	}
 	switch kind {
 	case "i8":
 		return 127
@@ -1480,6 +1485,38 @@ func main() {
 			}
 		}
 	}
+	// 5c. OUT of the domain: more elements than the prefix type can count.  The writer wraps the prefix
+	// (Len := LEN(array.Len())) and still writes every element; no predicate here (the property speaks
+	// about the protocol domain), only model-vs-implementation, for the writer and for reading that image
+	overflowOK = true
+	for _, t := range comps {
+		if t.Depth() != 1 || !(strings.HasPrefix(t.Name(), "ary:i8") || strings.HasPrefix(t.Name(), "ary:u8")) {
+			continue
+		}
+		for _, n := range []int{128, 129, 200, 255, 256, 257, 300, 383, 384} {
+			if strings.HasPrefix(t.Name(), "ary:u8") && n < 256 {
+				continue
+			}
+			v := t.Gen(r, n)
+			b, nw, err := t.Enc(v)
+			line := "enc err"
+			if err == nil {
+				line = fmt.Sprintf("enc %s %d", hexs(b), nw)
+			}
+			o.Case("enc.overflow", true, fmt.Sprintf("enc %s %s", t.Name(), v.Show(true)), line)
+			old := genDest(r, t, v, destClasses[r.Intn(len(destClasses))])
+			var out *Val
+			var nn int64
+			var left int
+			p := hx.Try(func() { out, nn, left, err = t.Dec(old, b, false) })
+			line = "dec " + outcome(p, err)
+			if p == "" && err == nil {
+				line = fmt.Sprintf("dec ok %s %d %d", out.Show(false), nn, left)
+			}
+			o.Case("dec.overflow", true, fmt.Sprintf("dec %s %s %s", t.Name(), old.Show(true), hexs(b)), line)
+		}
+	}
+	overflowOK = false
 	// 6. random volume
 	for i := 0; i < o.N(6000, 20); i++ {
 		t := all[r.Intn(len(all))]
